@@ -57,7 +57,8 @@ func emitAll(evs []gate.Event) {
 }
 
 func main() {
-	mode := flag.String("mode", "files", "files | diskpacked")
+	mode := flag.String("mode", "files", "files | diskpacked | dporder (fault-free diskpacked run with index markers, to be run under strace)")
+	markerF := flag.String("marker", "", "dporder: file that receives the index-update markers")
 	histF := flag.String("hist", "", "histories (JSON lines)")
 	outF := flag.String("out", "trace.ndjson", "trace output")
 	vfsF := flag.String("vfslog", "", "VFS call log output (files mode)")
@@ -112,6 +113,10 @@ func main() {
 			}
 		case "diskpacked":
 			if err := dpSweep(u, hi, h, *scratch, *every, *maxFile); err != nil {
+				fatal(err)
+			}
+		case "dporder":
+			if err := dpOrder(u, hi, h, *scratch, *maxFile, *markerF); err != nil {
 				fatal(err)
 			}
 		}
@@ -546,6 +551,36 @@ func dpSweep(u *univ.Universe, hi int, h []drv.Op, scratch string, every bool, m
 		}
 		prefix = append(prefix, ev)
 	}
+	return nil
+}
+
+// dpOrder runs the history fault-free on a real directory with a marking index KV; the orchestrator runs this
+// mode under strace and checks the order of write / fsync on the pack files relative to the index updates.
+func dpOrder(u *univ.Universe, hi int, h []drv.Op, scratch string, maxFile int, marker string) error {
+	dir := filepath.Join(scratch, fmt.Sprintf("dporder-h%d", hi))
+	if err := os.MkdirAll(dir, 0700); err != nil {
+		return err
+	}
+	defer os.RemoveAll(dir)
+	mf, err := os.OpenFile(marker, os.O_CREATE|os.O_WRONLY|os.O_APPEND, 0600)
+	if err != nil {
+		return err
+	}
+	defer mf.Close()
+	kv := gate.NewKV("dporder", sorted.NewMemoryKeyValue(), nil, nil)
+	kv.Marker = mf
+	mf.Write([]byte(fmt.Sprintf("VERIFMARK History %d\n", hi)))
+	w, err := openDP(u, dir, kv, maxFile)
+	if err != nil {
+		return err
+	}
+	defer w.close()
+	for _, op := range h {
+		mf.Write([]byte("VERIFMARK Call " + op.Op + "\n"))
+		ev := w.r.Do(op)
+		mf.Write([]byte(fmt.Sprintf("VERIFMARK Ret %s %v\n", op.Op, ev["res"])))
+	}
+	nSeg++
 	return nil
 }
 
